@@ -224,4 +224,32 @@ def permittedFixed (fx : Fixed) : Obs → Prop
   | .offer => fx.proxy = false
   | .accept => fx.proxy = false
 
+/-! ### direct or through the proxy: decided on the SETTING, never on how it parses -/
+
+inductive ProxySetting where
+  | empty        -- ""
+  | wellFormed   -- a URL url.Parse and the dialers accept
+  | malformed    -- anything else that is not the empty string
+  deriving Repr, DecidableEq
+
+/-- conditions on the proxy setting; anything else (error checks …) is unknown: may hold -/
+def evalRouteCond (p : ProxySetting) (c : String) : Option Bool :=
+  if c == "proxy == \"\"" || c == "t.proxy == \"\"" || c == "prox == \"\"" then some (p == .empty)
+  else if c == "!(proxy == \"\")" || c == "!(t.proxy == \"\")" || c == "!(prox == \"\")" then
+    some (p != .empty)
+  else none
+
+/-- sites that connect (or make net/http connect) WITHOUT the proxy -/
+def isDirectSite (r : Gate) : Bool :=
+  r.site == "Transport.Proxy"   -- not a function literal we can read: fail-closed
+  || (r.site == "Transport.Proxy return" && r.args == "nil, nil")
+  || (r.site == "dialer.DialContext" && r.fn != "httpclient.Get")
+  || r.site == "net.Dial" || r.site == "net.DialTimeout" || r.site == "net.DialUDP"
+  || r.site == "net.DialTCP" || r.site == "net.DialIP" || r.site == "http.ProxyFromEnvironment"
+  || r.site == "http.ProxyURL" || r.site == "missing"
+
+/-- can some direct site be reached under this setting (unknown conditions assumed true)? -/
+def directReachable (tbl : List Gate) (p : ProxySetting) : Bool :=
+  tbl.any (fun r => isDirectSite r && r.conds.all (fun c => evalRouteCond p c != some false))
+
 end Storrent.Privacy
